@@ -414,6 +414,9 @@ def canaries(chk, prog):
 
 
 def run(chk, prog, tier):
+    # DCM(axang=...) with an axis of any non-zero length is a proper rotation (obligations of C10's AXANG.matrix, shared)
+    from props.c10 import axang as _axang
+    _axang(chk, prog, only_matrix=True)
     quat_ctor(chk, prog, QUAT + "::Quaternion.__new__", "versor")
     quat_ctor(chk, prog, QUAT + "::QuaternionArray.__new__", "versors")
     dcm_ctor(chk, prog)
